@@ -35,6 +35,11 @@ abbrev Bytes := List UInt8
 /-- the bytes of an ASCII literal -/
 def ascii (x : String) : Bytes := x.toList.map fun c => UInt8.ofNat c.toNat
 
+/-- a Go string literal where a byte string is expected (`""`, `"&"`) -/
+instance : Coe String Bytes := ⟨ascii⟩
+/-- Go's `+` on strings -/
+instance : Add Bytes := ⟨fun a b => a ++ b⟩
+
 -- ---------------------------------------------------------------- net/url: escaping
 
 def isAlnum (c : UInt8) : Bool := (0x61 ≤ c ∧ c ≤ 0x7A) || (0x41 ≤ c ∧ c ≤ 0x5A) || (0x30 ≤ c ∧ c ≤ 0x39)
@@ -92,6 +97,13 @@ def unescapeS (plus : Bool) : Pct → Bytes → Option Bytes
     | _, _ => none
 
 def unescape (plus : Bool) (s : Bytes) : Option Bytes := unescapeS plus .none s
+
+/-- `url.PathUnescape(s)` = `unescape(s, encodePathSegment)`: `+` stays, `%XX` is a byte — the same scan as for
+    `encodeFragment`; on an EscapeError the string result is "" -/
+def PathUnescape (s : Bytes) : Bytes × Option String :=
+  match unescape false s with
+  | some b => (b, none)
+  | none => ([], some "EscapeError")
 
 /-- `validEncoded(s, encodeFragment)` -/
 def validEncodedFragment (s : Bytes) : Bool :=
